@@ -28,6 +28,29 @@ func c10StubScalarMult(dst, scalar, point *[32]byte) {
 	copy(dst[:], verifrt.UFBytes("x25519", 32, scalar[:], point[:]))
 }
 
+// curve25519.X25519 (not called by the current box.go, but the natural replacement for the
+// deprecated ScalarMult): same uninterpreted function with the C11 contract — error exactly
+// when the value is all-zero or a length is not 32.
+//
+//verif:stub golang.org/x/crypto/curve25519.X25519
+func c10StubX25519(scalar, point []byte) ([]byte, error) {
+	if !verifrt.Symbolic() {
+		return curve25519.X25519(scalar, point)
+	}
+	if len(scalar) != 32 || len(point) != 32 {
+		return nil, errors.New("bad input length")
+	}
+	r := verifrt.UFBytes("x25519", 32, scalar, point)
+	var acc byte
+	for _, b := range r {
+		acc |= b
+	}
+	if acc == 0 {
+		return nil, errors.New("bad input point: low order point")
+	}
+	return r, nil
+}
+
 //verif:stub golang.org/x/crypto/curve25519.ScalarBaseMult
 func c10StubScalarBaseMult(dst, scalar *[32]byte) {
 	if !verifrt.Symbolic() {
@@ -156,9 +179,42 @@ func Verif_C10_Precompute() { c10Precompute(true) }
 // Verif_C10_PrecomputeReal: the same with the real HSalsa20 code (terms fold).
 func Verif_C10_PrecomputeReal() { c10Precompute(false) }
 
+// Points of small order (libsodium's list): X25519 is all-zero on them. Offered as concrete peer
+// keys so that the zero-DH-output case replays natively (under the engine the UF takes the value
+// zero on some path for any point anyway).
+var c10LowOrder = [][32]byte{
+	{},
+	{1},
+	{0xe0, 0xeb, 0x7a, 0x7c, 0x3b, 0x41, 0xb8, 0xae, 0x16, 0x56, 0xe3, 0xfa, 0xf1, 0x9f, 0xc4, 0x6a, 0xda, 0x09, 0x8d, 0xeb, 0x9c, 0x32, 0xb1, 0xfd, 0x86, 0x62, 0x05, 0x16, 0x5f, 0x49, 0xb8, 0x00},
+	{0x5f, 0x9c, 0x95, 0xbc, 0xa3, 0x50, 0x8c, 0x24, 0xb1, 0xd0, 0xb1, 0x55, 0x9c, 0x83, 0xef, 0x5b, 0x04, 0x44, 0x5c, 0xc4, 0x58, 0x1c, 0x8e, 0x86, 0xd8, 0x22, 0x4e, 0xdd, 0xd0, 0x9f, 0x11, 0x57},
+	{0xec, 0xff, 0xff, 0xff, 0xff, 0xff, 0xff, 0xff, 0xff, 0xff, 0xff, 0xff, 0xff, 0xff, 0xff, 0xff, 0xff, 0xff, 0xff, 0xff, 0xff, 0xff, 0xff, 0xff, 0xff, 0xff, 0xff, 0xff, 0xff, 0xff, 0xff, 0x7f},
+}
+
+// c10Tag is the Poly1305 tag crypto_secretbox puts in front of ciphertext ct under (k, nonce):
+// Poly1305(first 32 bytes of the XSalsa20 stream, ct).
+func c10Tag(ct []byte, nonce *[24]byte, k *[32]byte) (tag [16]byte) {
+	var sub [32]byte
+	var hn, counter [16]byte
+	copy(hn[:], nonce[:16])
+	sigma := [16]byte{'e', 'x', 'p', 'a', 'n', 'd', ' ', '3', '2', '-', 'b', 'y', 't', 'e', ' ', 'k'}
+	salsa.HSalsa20(&sub, &hn, k, &sigma)
+	copy(counter[:8], nonce[16:])
+	first := make([]byte, 64)
+	salsa.XORKeyStream(first, first, &counter, &sub)
+	var polyKey [32]byte
+	copy(polyKey[:], first[:32])
+	poly1305.Sum(&tag, ct, &polyKey)
+	return
+}
+
 func c10Precompute(abstractSalsa bool) {
 	c10AbstractSalsa = abstractSalsa
 	pk := c10Arr32(verifrt.Bytes(32))
+	if abstractSalsa {
+		if lo := verifrt.Choose(0, len(c10LowOrder)); lo > 0 {
+			pk = c10LowOrder[lo-1] // low-order peer key: shared must become HSalsa20(0^32, 0^16)
+		}
+	}
 	sk := c10Arr32(verifrt.Bytes(32))
 	shared := c10Arr32(verifrt.Bytes(32))
 	pk0, sk0 := pk, sk
@@ -316,6 +372,16 @@ func Verif_C10_OpenAnonymous() {
 	pk := c10Arr32(verifrt.Bytes(32))
 	sk := c10Arr32(verifrt.Bytes(32))
 	box := verifrt.Bytes(bl)
+	genuine := bl >= 48 && verifrt.Choose(0, 1) == 1
+	if genuine {
+		// constructively valid tag (computed with the same primitives: UFs under the engine,
+		// the real ones natively), so that the accepting path exists in native replay too
+		epk := c10Arr32(box[:32])
+		nonce := c10Arr24(c10Blake2b192(append(append([]byte{}, epk[:]...), pk[:]...)))
+		k := c10BeforeNM(&epk, &sk)
+		tag := c10Tag(box[48:], &nonce, &k)
+		copy(box[32:48], tag[:])
+	}
 	gotM, gotOK := OpenAnonymous(nil, box, &pk, &sk)
 	if bl < 48 {
 		verifrt.Assert(!gotOK && gotM == nil, "shorter than epk + tag is rejected")
@@ -326,6 +392,10 @@ func Verif_C10_OpenAnonymous() {
 	nonce := c10Arr24(c10Blake2b192(append(append([]byte{}, epk[:]...), pk[:]...)))
 	k := c10BeforeNM(&epk, &sk)
 	wantM, wantOK := secretbox.Open(nil, box[32:], &nonce, &k)
+	if genuine {
+		verifrt.Assert(wantOK, "a box carrying the genuine tag is accepted by crypto_box_open")
+		verifrt.Reach("oanon-genuine")
+	}
 	verifrt.Assert(gotOK == wantOK && len(gotM) == len(wantM), "acceptance = crypto_box_open with derived nonce")
 	for i := range wantM {
 		verifrt.Assert(gotM[i] == wantM[i], "plaintext")
@@ -335,4 +405,81 @@ func Verif_C10_OpenAnonymous() {
 	} else {
 		verifrt.Reach("oanon-reject")
 	}
+}
+
+// c10RTLens: message lengths of the constructive round-trip harnesses (empty message, around
+// the 16-byte tag size, the 32-byte first-block split and the 64-byte block boundary).
+var c10RTLens = []int{0, 1, 15, 16, 17, 31, 32, 33, 64, 65}
+
+// c10Diff ORs the byte differences of two equally long slices (one solver query instead of one
+// per byte).
+func c10Diff(a, b []byte) (d byte) {
+	for i := range a {
+		d |= a[i] ^ b[i]
+	}
+	return
+}
+
+// c10AssumeDH states Diffie-Hellman symmetry for the two X25519 applications of one exchange:
+// X25519(a, X25519(b, 9)) = X25519(b, X25519(a, 9)). A fact about the curve (holds natively for
+// the real function), an explicit ASSUMPTION about the uninterpreted function under the engine.
+func c10AssumeDH(a, aPub, b, bPub *[32]byte) {
+	x := c10X25519(a, bPub)
+	y := c10X25519(b, aPub)
+	for i := range x {
+		verifrt.Assume(x[i] == y[i])
+	}
+}
+
+// Verif_C10_AnonymousRoundTrip (constructive, replays natively with the real primitives):
+// recipient key pair (rsk symbolic, rpk = X25519(rsk, 9)); box := SealAnonymous(nil, m, rpk, rand)
+// with rand handing out a symbolic ephemeral secret; then OpenAnonymous(nil, box, rpk, rsk) must
+// succeed and return m, for every message length in c10RTLens — in particular the EMPTY message
+// (48-byte sealed box). DH symmetry for this exchange is assumed (c10AssumeDH).
+func Verif_C10_AnonymousRoundTrip() {
+	c10AbstractSalsa = true
+	n := c10RTLens[verifrt.Choose(0, len(c10RTLens)-1)]
+	rsk := c10Arr32(verifrt.Bytes(32))
+	var rpk [32]byte
+	curve25519.ScalarBaseMult(&rpk, &rsk)
+	esk := c10Arr32(verifrt.Bytes(32))
+	var epk [32]byte
+	curve25519.ScalarBaseMult(&epk, &esk)
+	c10AssumeDH(&esk, &epk, &rsk, &rpk)
+	m := verifrt.Bytes(n)
+	box, err := SealAnonymous(nil, m, &rpk, &c10Reader{data: append([]byte{}, esk[:]...)})
+	verifrt.Assert(err == nil && len(box) == n+AnonymousOverhead, "SealAnonymous succeeds, len = len(m) + 48")
+	got, ok := OpenAnonymous(nil, box, &rpk, &rsk)
+	verifrt.Assert(ok, "OpenAnonymous accepts SealAnonymous's output (incl. the empty message)")
+	verifrt.Assert(len(got) == n, "opened length = message length")
+	verifrt.Assert(c10Diff(got, m) == 0, "OpenAnonymous(SealAnonymous(m)) = m")
+	verifrt.Reach("anon-roundtrip")
+}
+
+// Verif_C10_BoxRoundTrip (constructive): two key pairs; box := Seal(nil, m, nonce, bPub, aPriv);
+// Open(nil, box, nonce, aPub, bPriv) — the OTHER party's view — succeeds and returns m, also via
+// Precompute + OpenAfterPrecomputation; lengths c10RTLens incl. the empty message (16-byte box).
+// DH symmetry assumed (c10AssumeDH).
+func Verif_C10_BoxRoundTrip() {
+	c10AbstractSalsa = true
+	n := c10RTLens[verifrt.Choose(0, len(c10RTLens)-1)]
+	ask := c10Arr32(verifrt.Bytes(32))
+	bsk := c10Arr32(verifrt.Bytes(32))
+	var apk, bpk [32]byte
+	curve25519.ScalarBaseMult(&apk, &ask)
+	curve25519.ScalarBaseMult(&bpk, &bsk)
+	c10AssumeDH(&ask, &apk, &bsk, &bpk)
+	nonce := c10Arr24(verifrt.Bytes(24))
+	m := verifrt.Bytes(n)
+	box := Seal(nil, m, &nonce, &bpk, &ask)
+	verifrt.Assert(len(box) == n+Overhead, "len = len(m) + 16")
+	got, ok := Open(nil, box, &nonce, &apk, &bsk)
+	verifrt.Assert(ok && len(got) == n, "the peer's Open accepts Seal's output (incl. the empty message)")
+	verifrt.Assert(c10Diff(got, m) == 0, "Open(Seal(m)) = m across the two parties")
+	var shared [32]byte
+	Precompute(&shared, &apk, &bsk)
+	got2, ok2 := OpenAfterPrecomputation(nil, box, &nonce, &shared)
+	verifrt.Assert(ok2 && len(got2) == n, "OpenAfterPrecomputation accepts it too")
+	verifrt.Assert(c10Diff(got2, m) == 0, "OpenAfterPrecomputation(Seal(m)) = m")
+	verifrt.Reach("box-roundtrip")
 }
